@@ -162,6 +162,25 @@ theorem last_version_visible (log : List Version) (w : Version) (h : Ordered (lo
     | none => exact Or.inl rfl
     | some x => right; simp
 
+/-- **batches**: `bi_merge` also takes a LIST of new versions in one call.  However a stamp-ordered history is cut
+    into such calls, the store answers as-of reads and first reads as the full publication log does. -/
+theorem read_spec_batches (batches : List (List Version)) (h : Ordered batches.flatten) (T : Option Int) :
+    ∃ st, historyL batches = some st ∧ biRead st T (-1) = specRead batches.flatten T ∧
+      biRead st T 0 = specFirst batches.flatten T := by
+  obtain ⟨st, hst, hg, he, _⟩ := historyL_inv batches h.ne h.wf h.stamps
+  refine ⟨st, hst, by rw [biRead_last st hg, specRead_eq, specRows_congr he], ?_⟩
+  rw [biRead_first st hg, specFirst_eq]
+  exact firstRows_congr he (fun d => (hg d).1.le)
+    (fun d => (logRows_sorted _ h.stamps).sublist List.filter_sublist) T
+
+/-- merging one version at a time is the special case of one-element batches -/
+theorem history_eq_batches (log : List Version) : history log = historyL (log.map fun v => [v]) := by
+  unfold history historyL
+  rw [List.foldl_map]
+  congr 1
+  funext st v
+  cases st <;> rfl
+
 /-- the store never holds anything that was not published -/
 theorem store_rows_published (log : List Version) (h : Ordered log) (st : Store) (hst : history log = some st)
     (r : Row) (hr : r ∈ st) : ∃ v ∈ log, r.stamp = v.stamp ∧ (r.date, r.val) ∈ v.ts := by
@@ -205,5 +224,10 @@ def demo : List Version :=
     (biRead st (some 10) (-1)).any fun q => q.1 == p.1 && (p.2 == Option.none || p.2 == q.2)) == some false
 #guard (history demo).map (fun st => biRead (biMerge (some st) (Bi demo[0]!.ts 10)) (some 10) (-1)) ==
     some [(1, some 5), (2, none), (3, some 1)]
+
+-- the same history handed over in batches (one call with two versions, an empty call, one call with two more)
+#guard (historyL [[demo[0]!, demo[1]!], [], [demo[2]!, demo[3]!]]).map (fun st => biRead st Option.none (-1)) ==
+    some (specRead demo Option.none)
+#guard (historyL [demo]).map (fun st => biRead st (some 10) 0) == some (specFirst demo (some 10))
 
 end Pyg.Props.C17
